@@ -43,7 +43,8 @@ Fixpoint always_returns (s : stmt) : bool :=
 
 Definition fn_ok (d : fn) : Prop := Forall (fun p => user_name (fst p)) (fparams d) /\ stmt_ok (fbody d).
 
-Definition fuel_small (f : nat) : Prop := (Z.of_nat f < 4294967296)%Z.
+(* only used by SFor: the VM keeps the loop index in an int64, the reference counts in Z *)
+Definition fuel_small (f : nat) : Prop := (Z.of_nat f < 9223372036854775808)%Z.
 Lemma fuel_small_S f : fuel_small (S f) -> fuel_small f.
 Proof. unfold fuel_small. lia. Qed.
 
